@@ -28,18 +28,18 @@ Print Assumptions C07_icv_is_mac_over_prefix.
 (** Round trip of protected messages.  [encode enc mac (Some cr) m] is Message.to_bytes() of a message whose crypto
     is [cr], [decode dec mac (Some cr) false d] is Message.parse(d, crypto=cr).  For every message whose header
     fields fit, whose cleartext payloads are a well-formed chain without an Encrypted payload, whose payloads to
-    encrypt are a well-formed chain that encodes to octets, with a one-block IV ([wf_protected]), both chains made of
-    SA/KE/IDi/IDr/AUTH/NONCE/NOTIFY/VENDOR payloads ([simple_chain], the C05 restriction: no DELETE, TSi/TSr), and
-    for every cipher/MAC with the stated length and inversion properties: whatever to_bytes produces, parse gives
-    back [received cr m] = the same nine header fields, the same cleartext payloads (the SK payload is popped), the
-    same inner payloads; it differs from [m] exactly in iv := Some (the IV that was sent) and
+    encrypt are a well-formed chain that encodes to octets, with a one-block IV ([wf_protected]) - both chains made
+    of ANY payload bodies of the model (SA/KE/IDi/IDr/AUTH/NONCE/NOTIFY/DELETE/VENDOR/TSi/TSr), no further
+    restriction - and for every cipher/MAC with the stated length and inversion properties: whatever to_bytes
+    produces, parse gives back [received cr m] = the same nine header fields, the same cleartext payloads (the SK
+    payload is popped), the same inner payloads; it differs from [m] exactly in iv := Some (the IV that was sent) and
     is_authenticated := True. *)
 Theorem C07_roundtrip : forall enc dec mac cr m d,
   (0 < c_bs cr <= 256)%nat -> (0 < c_icv cr)%nat ->
   (forall k x, length (mac k x) = c_icv cr) ->
   (forall k iv p, length (enc k iv p) = length p) ->
   (forall k iv p, wf_bytes p -> (length p mod c_bs cr = 0)%nat -> dec k iv (enc k iv p) = p) ->
-  wf_protected cr m -> simple_chain (m_payloads m) -> simple_chain (m_enc_payloads m) ->
+  wf_protected cr m ->
   encode enc mac (Some cr) m = Ok d ->
   decode dec mac (Some cr) false d =
     Ok (mkMessage (m_spi_i m) (m_spi_r m) (m_major m) (m_minor m) (m_exchange m) (m_is_response m) (m_higher m)
@@ -55,7 +55,7 @@ Theorem C07_roundtrip_exists : forall enc dec mac cr m,
   (forall k x, length (mac k x) = c_icv cr) ->
   (forall k iv p, length (enc k iv p) = length p) ->
   (forall k iv p, wf_bytes p -> (length p mod c_bs cr = 0)%nat -> dec k iv (enc k iv p) = p) ->
-  wf_protected cr m -> simple_chain (m_payloads m) -> simple_chain (m_enc_payloads m) ->
+  wf_protected cr m ->
   let sk_max := (c_bs cr + (length (rfc_chain (m_enc_payloads m)) + c_bs cr) + c_icv cr)%nat in
   (4 + N.of_nat sk_max < 65536)%N ->
   (28 + len_of (rfc_chain (m_payloads m)) + 4 + N.of_nat sk_max < 4294967296)%N ->
@@ -68,7 +68,7 @@ Print Assumptions C07_roundtrip_exists.
 Theorem C07_layout : forall enc mac cr m d,
   (forall k x, length (mac k x) = c_icv cr) -> (0 < c_icv cr)%nat -> (0 < c_bs cr <= 256)%nat ->
   (forall k iv p, length (enc k iv p) = length p) ->
-  wf_protected cr m -> simple_chain (m_payloads m) -> simple_chain (m_enc_payloads m) ->
+  wf_protected cr m ->
   encode enc mac (Some cr) m = Ok d ->
   exists (p : N) (tag : bytes),
     let clr := rfc_chain (m_enc_payloads m) in
@@ -77,7 +77,7 @@ Theorem C07_layout : forall enc mac cr m d,
     let m1 := with_payloads m (m_payloads m ++
                  [sk_payload (iv ++ enc (c_sk_e cr) iv pt ++ tag) (rfc_first (m_enc_payloads m))]) in
     (p < N.of_nat (c_bs cr))%N /\ (length pt mod c_bs cr = 0)%nat /\ length tag = c_icv cr
-    /\ wf_msg m1 /\ simple_chain (m_payloads m1) /\ d = rfc_encode m1.
+    /\ wf_msg m1 /\ d = rfc_encode m1.
 Proof. exact encode_protected_layout. Qed.
 Print Assumptions C07_layout.
 
@@ -175,21 +175,26 @@ Theorem C07_modified_returned_unauthenticated_refuted :
 Proof. exact modified_returned_unauthenticated_refuted. Qed.
 Print Assumptions C07_modified_returned_unauthenticated_refuted.
 
-(** Non-vacuity: the toy primitives and a concrete IKE_AUTH-like message satisfy every hypothesis of C07_roundtrip,
-    to_bytes succeeds (159 octets) and the conclusion evaluates to true. *)
+(** Non-vacuity: the toy primitives and a concrete IKE_AUTH-like message, whose encrypted payloads include a DELETE, a
+    TSi (IPv4 and IPv6 selector) and a TSr payload (so the inner chain is outside C05's earlier [simple_chain]
+    restriction), satisfy every hypothesis of C07_roundtrip, to_bytes succeeds (263 octets) and the conclusion
+    evaluates to true. *)
 Theorem C07_hypotheses_satisfiable :
   let cr := ex_cr in let mac := toy_mac (c_icv cr) in
   ((0 < c_bs cr <= 256)%nat /\ (0 < c_icv cr)%nat
    /\ (forall k x, length (mac k x) = c_icv cr)
    /\ (forall k iv p, length (toy_enc k iv p) = length p)
    /\ (forall k iv p, wf_bytes p -> (length p mod c_bs cr = 0)%nat -> toy_dec k iv (toy_enc k iv p) = p)
-   /\ wf_protected cr ex_m /\ simple_chain (m_payloads ex_m) /\ simple_chain (m_enc_payloads ex_m))
+   /\ wf_protected cr ex_m)
+  /\ ~ simple_chain (m_enc_payloads ex_m)
   /\ encode toy_enc mac (Some cr) ex_m = Ok (ex_encode cr ex_m)
-  /\ (length (ex_encode cr ex_m) = 159)%nat
+  /\ (length (ex_encode cr ex_m) = 263)%nat
   /\ decode toy_dec mac (Some cr) false (ex_encode cr ex_m) = Ok (received cr ex_m).
 Proof. exact roundtrip_protected_nonvacuous. Qed.
 Print Assumptions C07_hypotheses_satisfiable.
 
-(* Not reached: the round trip for inner/cleartext chains containing DELETE or TSi/TSr payloads ([simple_chain]
-   excludes exactly these, as in C05); they are covered by the correspondence (toy primitives) and by the oracle on
-   the real AES-CBC/HMAC classes. *)
+(* Coverage: the protected round trip, its existence form and the protected layout hold for every well-formed
+   message whose cleartext and encrypted chains contain any payload bodies, DELETE and TSi/TSr included (via C05's
+   [body_ok_chain]); no [simple_chain] restriction remains.  Not covered by a theorem: the real AES-CBC/HMAC
+   primitives (Section variables here, with the stated length/inversion hypotheses); they are exercised by the
+   correspondence (toy primitives) and by the oracle on the real AES-CBC/HMAC classes. *)
